@@ -149,13 +149,27 @@ def check(chk):
 
     def adder_shape(qual, cbs, test):
         f = cl.func(qual)
-        w = [st for st in f.body if isinstance(st, ast.With) and any(src(i.context_expr) == 'self._callback_lock' for i in st.items)]
+        w = [st for st in body_walk(f) if isinstance(st, ast.With) and any(src(i.context_expr) == 'self._callback_lock' for i in st.items)]
         facts = {'one_lock_region': len(w) == 1}
         if w:
-            facts['appends_in_lock'] = any('self.%s.append((fn, args, kwargs))' % cbs in src(st) for st in w[0].body)
-            facts['tests_outcome_in_lock'] = any(isinstance(st, ast.If) and src(st.test) == test for st in w[0].body)
-            after = f.body[f.body.index(w[0]) + 1:]
-            facts['runs_outside_lock'] = any(isinstance(st, ast.If) and src(st.test) == 'run_now' and 'fn(' in src(st) for st in after) and 'fn(' not in src(w[0])
+            attr = test.split(' ')[0].split('.')[-1]             # _final_result / _final_exception
+            inside = set(id(x) for x in ast.walk(w[0]))
+            appends = [c for c in body_walk(f) if isinstance(c, ast.Call) and src(c.func) == 'self.%s.append' % cbs]
+            facts['appends_in_lock'] = bool(appends) and all(id(c) in inside for c in appends)
+            reads = [a for a in body_walk(f) if isinstance(a, ast.Attribute) and a.attr == attr and src(a.value) == 'self' and isinstance(a.ctx, ast.Load)]
+            # the outcome is looked at while the lock that orders registration against completion is held - and only there
+            runs = [c for c in body_walk(f) if isinstance(c, ast.Call) and isinstance(c.func, ast.Name) and c.func.id == 'fn']
+            # ... and the decision to run at once is not taken again from an unlocked read
+            from ..core import parent as _par
+            unlocked_tests = []
+            for c in runs:
+                p_ = _par(c)
+                while p_ is not None and p_ is not f:
+                    if isinstance(p_, (ast.If, ast.IfExp, ast.While)) and id(p_) not in inside:
+                        unlocked_tests += [a for a in ast.walk(p_.test) if isinstance(a, ast.Attribute) and a.attr == attr and src(a.value) == 'self']
+                    p_ = _par(p_)
+            facts['tests_outcome_in_lock'] = any(id(a) in inside for a in reads) and not unlocked_tests
+            facts['runs_outside_lock'] = bool(runs) and not any(id(c) in inside for c in runs)
         return f, facts
     a1, t1 = adder_shape('ResponseFuture.add_callback', '_callbacks', 'self._final_result is not _NOT_SET')
     a2, t2 = adder_shape('ResponseFuture.add_errback', '_errbacks', 'self._final_exception')
